@@ -66,7 +66,10 @@ type item struct {
 	depth  int
 }
 
-const splitDepth = 2
+// Work is split between worker processes by sub-trees: items above the split depth are run by
+// every worker (only to generate their children), items at the split depth belong to the worker
+// their prefix hashes to, deeper items to whoever owns their ancestor.  The split depth is 1 when
+// the root execution already has plenty of alternatives, else 2 (decided identically by all workers).
 
 func hashPrefix(p []int) uint32 {
 	h := fnv.New32a()
@@ -100,7 +103,9 @@ func Explore(sc *Scenario, opt Options) (*Stats, []*Found) {
 	cache := map[uint64]int8{}
 	seen := map[uint64]struct{}{}
 	stack := []item{{}}
+	splitDepth := 2
 	sigs := map[string]bool{}
+	rootKids := 0
 	for len(stack) > 0 {
 		it := stack[len(stack)-1]
 		stack = stack[:len(stack)-1]
@@ -169,6 +174,9 @@ func Explore(sc *Scenario, opt Options) (*Stats, []*Found) {
 				}
 				for alt := 1; alt < p.N; alt++ {
 					c := 0
+					if it.depth == 0 {
+						rootKids++
+					}
 					if p.Costs != nil {
 						c = int(p.Costs[alt])
 					}
@@ -189,6 +197,9 @@ func Explore(sc *Scenario, opt Options) (*Stats, []*Found) {
 		}
 		if count {
 			st.States++ // terminal state
+		}
+		if it.depth == 0 && rootKids >= 6*opt.Shards {
+			splitDepth = 1
 		}
 	}
 	return st, found
